@@ -36,7 +36,11 @@ def run(pytest_args):
     out = tempfile.mktemp(suffix='.xml')
     cmd = ['/venv/bin/python', '-m', 'pytest', '-q', '-p', 'no:cacheprovider', '--timeout=900',
            '--continue-on-collection-errors', f'--junitxml={out}'] + pytest_args
-    r = subprocess.run(cmd, cwd="/repo", env=env, capture_output=True, text=True)
+    repo = os.environ.get("BASELINE_REPO", "/repo")
+    e2 = dict(env)
+    if repo != "/repo":
+        e2["PYTHONPATH"] = repo + os.pathsep + e2.get("PYTHONPATH", "")
+    r = subprocess.run(cmd, cwd=repo, env=e2, capture_output=True, text=True)
     if not os.path.exists(out):
         print(r.stdout[-2000:], r.stderr[-2000:])
         sys.exit(2)
